@@ -11,6 +11,7 @@ BENIGN = [
     ("zone_build", "crates/dns-types/src/zones/types.rs", "            self.records\n                .insert(relative_domain, rtype_with_data, self.actual_ttl(ttl));", "            let raised = self.actual_ttl(ttl);\n            self.records\n                .insert(relative_domain, rtype_with_data, raised);", "introduced a local"),
     ("zone_build", "crates/dns-types/src/zones/types.rs", "            if let Some(entries) = self.this.get_mut(&rtype) {\n                if entries.iter().any(|e| e == &new) {\n                    return;\n                }\n\n                entries.push(new);", "            if let Some(entries) = self.this.get_mut(&rtype) {\n                if !entries.iter().any(|e| e == &new) {\n                    entries.push(new);\n                }", "early return as a negated condition"),
     ("zone_build", "crates/dns-types/src/zones/types.rs", "            if let Some(entries) = self.this.get_mut(&rtype) {\n                if entries.iter().any(|e| e == &new) {", "            if let Some(entries) = self.this.get_mut(&rtype) {\n                if entries.contains(&new) {", "any(==) as contains"),
+    ("zone_merge", "crates/dns-types/src/hosts/types.rs", "        for (name, address) in other.v4 {\n            self.v4.insert(name, address);\n        }\n        for (name, address) in other.v6 {\n            self.v6.insert(name, address);\n        }", "        self.v4.extend(other.v4);\n        self.v6.extend(other.v6);", "insert loops as extend"),
     ("local", "crates/dns-resolver/src/local.rs", "    let mut rrs_from_zone = Vec::new();", "    let mut rrs_from_zone = Vec::with_capacity(4);", "capacity hint"),
     ("local", "crates/dns-resolver/src/local.rs", "        tracing::debug!(\"hit recursion limit\");", "        tracing::warn!(\"hit recursion limit\");", "log level"),
     ("recursive", "crates/dns-resolver/src/recursive.rs", "    let mut candidates = None;\n    let mut combined_rrs = Vec::new();", "    let mut combined_rrs = Vec::new();\n    let mut candidates = None;", "swap two independent lets"),
